@@ -49,6 +49,9 @@ def crash_signature(prop, crash):
     return f"worker-death:{kind}:{stream}:{crash.get('flavour', 'mon')}"
 
 
+LADDER_STREAMS = ["ladder-list", "ladder-dict", "ladder-grid", "ladder-list-in-dict", "ladder-gridmeta", "ladder-xstr-paren",
+                  "ladder-json-list", "ladder-json-dict", "ladder-json-grid", "ladder-paren", "ladder-paren-and", "ladder-not-paren"]
+
 WELLFORMED = ("well-formed values only (C01 clause): identifier tag/column names, Ref/Symbol bodies over the id alphabet, "
               "Symbols start with a lower-case letter, XStr types [A-Z][A-Za-z0-9_]* except the literal 'C', Uris without "
               "control characters, database units, unit-less non-finite numbers, years 0000-9999, instants 1980-2060 in zones "
@@ -150,5 +153,32 @@ PROPS = {
                                     "spelling:zero-offset-numeric", "spelling:fraction-trailing-zero", "spelling:nested-grid-no-newline",
                                     "spelling:trailing-blank-line", "spelling:uri-esc-uXXXX", "grid:meta", "grid:colmeta"]},
         "min_evals": {"quick": 50_000, "thorough": 1_000_000},
+    },
+    "C03": {
+        "quick": [phase(16, 1.0, 90)],
+        "thorough": [phase(16, 1.0, 1500),
+                     phase(1, 1.0, 300, flavour="release", streams=LADDER_STREAMS),
+                     phase(1, 1.0, 300, flavour="dev", streams=LADDER_STREAMS)],
+        "crash_is_violation": True,
+        "rule": ("cases = input texts: nesting ladders of [ {a: << {a:[ grid-meta and X( (and JSON [ {\"a\": grid rows) at depths "
+                 "1,10,100,127,128,129,1e3,1e4,1e5, closed and unclosed; slices of the shipped corpus files with their prefixes and "
+                 "mutants; grammar-generated Zinc documents (reference writer, random spellings) with every prefix (thorough; 48 sampled "
+                 "in quick) and 24 stacked-mutation mutants each (bit flip, byte replace/insert/delete/swap, range duplicate/delete, token "
+                 "splice, truncate, comma insert/delete, terminator delete); Hayson documents with prefixes and mutants; random bytes, "
+                 "printable noise and token soup. Each text goes through zinc::from_str, Parser::make(reader).parse_value and the lazy "
+                 "parse_grid_iterator (drained) over a hostile reader (chunks of 1/2/7/random/whole, Interrupted on every other call, "
+                 "sticky I/O error at a random offset), or serde_json::from_str/from_slice::<Value>. oracle = returned Ok or Err; a panic "
+                 "(caught, with location), a worker death (attributed through the write-ahead progress marker) or more than 8*len+256 "
+                 "lexer steps confirmed with 1000x that fuel is a violation. distinct = distinct input texts"),
+        "assumptions": ["'terminates' is restated as: finishes within 8*len+256 steps of the three hooked lexer/scanner read functions "
+                        "(observed maximum is reported as max_ticks_per_byte); loops that do not pass through those functions would only "
+                        "be seen by the wall-clock watchdog, which yields inconclusive, not a verdict",
+                        "stack exhaustion depends on the build profile: quick uses the monitoring profile, thorough repeats the ladders in "
+                        "plain release and dev builds"],
+        "require_strata": {"both": ["outcome:from_str:ok", "outcome:from_str:err", "outcome:reader:ok", "outcome:reader:err", "outcome:lazy:ok",
+                                    "outcome:lazy:err", "outcome:json_slice:ok", "outcome:json_slice:err", "ladder-list:depth100000",
+                                    "ladder-grid:depth100000", "ladder-json-list:depth100000", "prefix", "mutant", "corpus-mutant",
+                                    "mutation:token-splice", "mutation:comma-insert", "mutation:terminator-delete", "bytes"]},
+        "min_evals": {"quick": 300_000, "thorough": 10_000_000},
     },
 }
